@@ -1212,7 +1212,17 @@ pub fn eval_case2(prop: &str, case: &Case, obs: &mut Obs) -> Vec<Violation> {
                     FRes::Bytes(b) => {
                         let exp = mon::c19::Expect { width: h.cfg.width, height: h.cfg.height, movie_timescale: None, media_timescale: h.cfg.timescale, n_tracks: 1, codec: if h.cfg.via_builder { Some(h.cfg.vcodec) } else { None } };
                         obs.nontrivial(crate::util::fnv(b));
-                        mon::c19::check_stream(b, "init", Some(&exp), obs)
+                        let mut vs = mon::c19::check_stream(b, "init", Some(&exp), obs);
+                        // A language tag that is not three lower-case letters is outside the
+                        // documented input format (ISO 639-2/T); what mdhd then holds is not
+                        // specified (C18's don't-care zone), so its three 5-bit values are not
+                        // judged. Everything else about the init segment still is.
+                        let malformed = h.cfg.lang.as_ref().map(|l| l.len() != 3 || !l.bytes().all(|c| c.is_ascii_lowercase())).unwrap_or(false);
+                        if malformed {
+                            obs.count("init_segments_with_malformed_language_tag", 1);
+                            vs.retain(|x| !x.sig.contains("mdhd: language character outside a-z"));
+                        }
+                        vs
                     }
                     FRes::Seg(Some(b)) => {
                         obs.nontrivial(crate::util::fnv(b));
